@@ -5,11 +5,31 @@
 (* SyltLex.  One record per input text; record k is checked independently  *)
 (* (Init ranges over all k, so all TLC workers share the work).            *)
 (*                                                                         *)
-(* The universe is decided HERE, not by the harness: for UNIVERSE =        *)
-(* "strings" record k must carry exactly the k-th text over MCAlphabet;    *)
-(* for "frags" the k-th concatenation of fragments.  A record whose input  *)
-(* differs from the text TLC derives is a tool error (Assert), not a       *)
-(* verdict.                                                                *)
+(* The universe is decided HERE, not by the harness: every record carries  *)
+(* (or, for "strings", is) an index, TLC derives the text of that index    *)
+(* from the universe definitions below and a record whose input differs    *)
+(* from the text TLC derives is a tool error (Assert), not a verdict.      *)
+(* A trace may be cut into shards; OFFSET is the number of records before  *)
+(* this shard.  The first ExhCount records of a universe must carry the    *)
+(* indices 1..ExhCount (the exhaustive part, EXHLEN chooses it), the       *)
+(* remaining ones are samples chosen by the recorder.                      *)
+(*                                                                         *)
+(* Universes (all texts are written with the stand-ins of SyltLex for      *)
+(* characters outside the token alphabet; the recorder holds the real      *)
+(* characters in the same order):                                          *)
+(*   strings   all strings over MCAlphabet (round 1)                       *)
+(*   frags     concatenations of 1..3 lexical fragments                    *)
+(*   ustrings  all strings over UAlphabet: a core of token characters and  *)
+(*             one to three representatives of every NonToken class        *)
+(*   uctx      context x NonToken character x context                      *)
+(*   numgram   all strings over the characters that decide the int / float *)
+(*             / identifier / operator boundaries                          *)
+(*   numctx    the same embedded after and before an identifier, an        *)
+(*             operator, a bracket, a blank and a newline                  *)
+(*   files     head x body x tail: what files begin and end with           *)
+(*   long      unit^count \o window: very long lines / very many lines;    *)
+(*             only the window is validated token by token (see below)     *)
+(*   free      any text (random longer texts, replays)                     *)
 (*                                                                         *)
 (* The machine is deterministic: blanks are skipped silently, then the     *)
 (* next recorded token must equal one of the tokens SyltLex's Emit actions *)
@@ -21,33 +41,93 @@ EXTENDS SyltLex, Json, IOUtils
 
 VARIABLES k,      \* index of the record being validated
           j,      \* index of the next recorded token
-          st      \* "run" | "ok" | "fail"
+          st      \* "prefix" | "run" | "ok" | "fail"
 
 tvars == <<text, pos, toks, k, j, st>>
 
 Rec == ndJsonDeserialize(IOEnv.TRACE)
 N == Len(Rec)
 Universe == IOEnv.UNIVERSE
+EnvInt(name, dflt) == IF name \in DOMAIN IOEnv THEN atoi(IOEnv[name]) ELSE dflt
+Offset == EnvInt("OFFSET", 0)      \* records of the same trace in earlier shards
+ExhLen == EnvInt("EXHLEN", 0 - 1)    \* which part of the universe has to be present exhaustively
 
 ---------------------------------------------------------------------------
-(* Index-addressed universes *)
+(* Index-addressed universes: strings over an alphabet *)
 A == Len(Alphabet)
 
 RECURSIVE Pow(_, _)
 Pow(b, e) == IF e = 0 THEN 1 ELSE b * Pow(b, e - 1)
 
-RECURSIVE Digits(_, _)   \* the l base-A digits of m, least significant first, as a string over Alphabet
-Digits(m, l) == IF l = 0 THEN "" ELSE Alphabet[(m % A) + 1] \o Digits(m \div A, l - 1)
+RECURSIVE DigitsOver(_, _, _)   \* the l base-|al| digits of m, least significant first, as a string over al
+DigitsOver(al, m, l) == IF l = 0 THEN "" ELSE al[(m % Len(al)) + 1] \o DigitsOver(al, m \div Len(al), l - 1)
 
-RECURSIVE LenOfIndex(_, _)  \* which length block does 0-based index m fall in, starting from length l
-LenOfIndex(m, l) == IF m < Pow(A, l) THEN <<l, m>> ELSE LenOfIndex(m - Pow(A, l), l + 1)
+RECURSIVE LenOfIndexOver(_, _, _)  \* which length block does 0-based index m fall in, starting from length l
+LenOfIndexOver(a, m, l) == IF m < Pow(a, l) THEN <<l, m>> ELSE LenOfIndexOver(a, m - Pow(a, l), l + 1)
 
-StringAt(idx) == LET lm == LenOfIndex(idx - 1, 0) IN Digits(lm[2], lm[1])
+StringAtOver(al, idx) == LET lm == LenOfIndexOver(Len(al), idx - 1, 0) IN DigitsOver(al, lm[2], lm[1])
 
-NumStrings(L) == LET RECURSIVE S(_)
-                     S(l) == IF l < 0 THEN 0 ELSE Pow(A, l) + S(l - 1)
-                 IN S(L)
+NumStringsOver(a, L) == LET RECURSIVE S(_)
+                            S(l) == IF l < 0 THEN 0 ELSE Pow(a, l) + S(l - 1)
+                        IN S(L)
 
+StringAt(idx) == StringAtOver(Alphabet, idx)
+NumStrings(L) == NumStringsOver(A, L)
+
+(* ustrings: token characters that neighbour a foreign character in some token class + the class
+   representatives.  Recorder: e 1 . " / \n space - =  e-acute CJK  Arabic-Indic-3 fullwidth-3 math-double-struck-1
+   superscript-2 Roman-IV  NBSP U+2028 VT  U+0301  undertie  BOM  emoji NUL *)
+UAlphabet == <<"e", "1", ".", "\"", "/", "\n", " ", "-", "=",
+               "@", "@", "%", "%", "%", "^", "^", "~", "~", "~", "`", "&", ";", "$", "$">>
+
+(* numgram: where int / float / identifier / operator boundaries are decided *)
+NumAlphabet == <<"1", ".", "e", "E", "+", "-", "a", "_">>
+NumMaxLen == 6
+NumCtxMaxLen == 5
+NumPre  == <<"x", "x ", "=", " ", "(", "\n">>
+NumPost == <<"", "x", " x", "=", " ", ")", "\n">>
+NumCtxAt(idx) ==
+    LET m == idx - 1
+        po == m % Len(NumPost)
+        pr == (m \div Len(NumPost)) % Len(NumPre)
+        s  == m \div (Len(NumPost) * Len(NumPre))
+    IN NumPre[pr + 1] \o StringAtOver(NumAlphabet, s + 1) \o NumPost[po + 1]
+
+(* uctx: every representative of every NonToken class between two contexts: identifiers, keywords,
+   numbers (complete and incomplete), strings (closed, open: the character is then inside the literal),
+   comments, operators (also prefixes of longer ones), brackets, blanks, line starts and ends.
+   Recorder (UChars): e-acute lambda CJK | Arabic-Indic-3 Devanagari-3 fullwidth-3 math-1 | superscript-2 one-half Roman-IV |
+   NBSP EM-SPACE IDEOGRAPHIC-SPACE LINE-SEPARATOR NEL VT FF | U+0301 | undertie | BOM | emoji NUL DEL $ ESC *)
+UChars == <<"@", "@", "@", "%", "%", "%", "%", "^", "^", "^", "~", "~", "~", "~", "~", "~", "~",
+            "`", "&", ";", "$", "$", "$", "$", "$">>
+UPre  == <<"", "e", "A9", "_", "if", "end", "nil", "12", "1.", ".5", "1e", "1e1", "1e-", "\"a\"", "\"a", "// c", "//",
+           "\n", "e\n", " ", "e ", "\t", "\r", "+", "-", "<", "<=", ".", ":", "(", ")", "\"a\nb\"", "<<<<<<">>
+UPost == <<"", "e", "A9", "_", "if", "nil", "12", ".5", "1e1", "\"a\"", "b\"", "// c", "\n", "\ne", " ", " e", "\t",
+           "\r", "\r\n", "+", "-", "=", ">", ".", "(", "\"", "/">>
+UCtxSize == Len(UPre) * Len(UChars) * Len(UPost)
+UCtxAt(idx) ==
+    LET m == idx - 1
+        po == m % Len(UPost)
+        c  == (m \div Len(UPost)) % Len(UChars)
+        pr == m \div (Len(UPost) * Len(UChars))
+    IN UPre[pr + 1] \o UChars[c + 1] \o UPost[po + 1]
+
+(* files: how a file begins and ends.  Recorder: ; is the byte-order mark, $ is NUL (in FTails the last $ is
+   Ctrl-Z), ~ is VT in FHeads[14] and FF in FHeads[18], @ is e-acute *)
+FHeads  == <<"", ";", ";;", " ", "\t", "\n", "\n\n", "\r\n", "\r", "// c\n", "//@\n", ";\n", "$", "~", " \n",
+             "\"\n\"", ";// c\n", "~\n">>
+FBodies == <<"e", "e = 1.5", "e\n1", "e\r\n1", "e\r1", "\"a\nb\" e", "e // @\n1", "e;1", "e$1", "\te\t1", "e @ 1",
+             "if e do\n  ret 1\nend">>
+FTails  == <<"", "\n", "\n\n\n", "\r", "\r\n", " ", "\t", ";", "$", "\n;", "// c", "\"", "\n\r", "$">>
+FilesSize == Len(FHeads) * Len(FBodies) * Len(FTails)
+FileAt(idx) ==
+    LET m == idx - 1
+        tl == m % Len(FTails)
+        b  == (m \div Len(FTails)) % Len(FBodies)
+        h  == m \div (Len(FTails) * Len(FBodies))
+    IN FHeads[h + 1] \o FBodies[b + 1] \o FTails[tl + 1]
+
+---------------------------------------------------------------------------
 (* fragment universe: all concatenations of 1..3 fragments, joined by "" or " " *)
 Frags == <<"a", "e", "A9", "_", "if", "iff", "do", "end", "fn", "pu", "ret", "int", "str", "float",
            "bool", "void", "nil", "nile", "true", "truee", "false", "and", "or", "not", "loop",
@@ -58,7 +138,11 @@ Frags == <<"a", "e", "A9", "_", "if", "iff", "do", "end", "fn", "pu", "ret", "in
            "// c", "//", "/", "\n",
            "+", "-", "*", "+=", "-=", "*=", "/=", "#", ":", "::", ":=", "=", "==", "!=",
            "<=>", "<!>", "(", ")", "[", "]", "{", "}", ">", ">=", "<", "<=", "!", "?", "|", "'",
-           ",", ".", "->", "<<<<<<<", ">>>>>>>", "<<<", "$", "\t", "\r", "\r\n">>
+           ",", ".", "->", "<<<<<<<", ">>>>>>>", "<<<", "$", "\t", "\r", "\r\n",
+           \* round 2: one representative per NonToken class (recorder: lambda, Devanagari 3, one half, EM SPACE,
+           \* U+0301, undertie, BOM, emoji, FF) and the number forms on which the float regex is easily got wrong
+           "@", "%", "^", "~", "`", "&", ";", "$", "~",
+           "1e-+5", "1e+-5", "1E5", "1_0", "1..2", ".5.", "1e5e5", "e5", "1e+", "1.e5", "5e", "E">>
 F == Len(Frags)
 Seps == <<"", " ">>
 
@@ -74,9 +158,94 @@ FragAt(idx) ==
            Frags[(q % F) + 1] \o Seps[s1 + 1] \o Frags[((q \div F) % F) + 1] \o Seps[s2 + 1]
              \o Frags[(q \div (F * F)) + 1]
 
-CaseText(idx) == CASE Universe = "strings" -> StringAt(idx)
-                   [] Universe = "frags"   -> FragAt(Rec[idx].idx)
-                   [] OTHER                -> Rec[idx].input
+---------------------------------------------------------------------------
+(* long: unit^count \o window.  Validating 65 537 lines token by token is out of TLC's reach (every
+   position is derived from the whole text), so the record carries the number of tokens, the last few
+   tokens and some sampled tokens of the periodic prefix; the specification
+     - requires every unit to end in a blank or newline and to lex without error (ASSUME UnitsOK), which
+       makes unit boundaries token boundaries: the tokens of unit^count are count shifted copies of the
+       tokens of the unit (ASSUME Periodic re-checks this consequence of longest match for count = 2),
+     - derives the expected j-th prefix token arithmetically, with MkTok on the WHOLE text (so line and
+       column still come from the text), and compares the samples and the token count (TracePrefix),
+     - then runs the ordinary machine from the first character of the window (Origin).
+   Recorder: @ is e-acute. *)
+LUnits   == <<"\n", "e\n", "\r\n", " ", "e ", "\t", "\"@\" ", "//@\n", "\"\n\" ", "e \"a\nb\"\n">>
+LCounts  == <<255, 256, 4095, 4096, 4097, 65535, 65536, 65537>>
+LWindows == <<"e 1.5", "e@ \"a\nb\" e // c\n1", "\"@", "", "\n\ne">>
+LongSize == Len(LUnits) * Len(LCounts) * Len(LWindows)
+LongU(idx) == LUnits[((idx - 1) \div (Len(LWindows) * Len(LCounts))) + 1]
+LongC(idx) == LCounts[(((idx - 1) \div Len(LWindows)) % Len(LCounts)) + 1]
+LongW(idx) == LWindows[((idx - 1) % Len(LWindows)) + 1]
+
+RECURSIVE Rep(_, _)
+Rep(u, c) == IF c = 0 THEN ""
+             ELSE IF c % 2 = 0 THEN LET h == Rep(u, c \div 2) IN h \o h
+             ELSE u \o Rep(u, c - 1)
+LongAt(idx) == Rep(LongU(idx), LongC(idx)) \o LongW(idx)
+
+(* the specification's tokenisation of t from p as a function (stops after the first error token) *)
+RECURSIVE LexFrom(_, _)
+LexFrom(t, p) ==
+    IF p > Len(t) THEN <<>>
+    ELSE IF Ch(t, p) \in Blank THEN LexFrom(t, p + 1)
+    ELSE LET ML == MatchLens(t, p) IN
+         IF ML = {} THEN <<[k |-> "err", p |-> p, n |-> Rem(t, p)]>>
+         ELSE LET L == SetMax(ML) IN <<[k |-> KindOf(t, p, L), p |-> p, n |-> L]>> \o LexFrom(t, p + L)
+LexAll(t) == LexFrom(t, 1)
+
+UnitOK(u) == /\ Len(u) >= 1 /\ Ch(u, Len(u)) \in Blank \cup {NL}
+             /\ LET ut == LexAll(u) IN \A i \in 1..Len(ut) : ut[i].k # "err"
+ASSUME UnitsOK == \A i \in 1..Len(LUnits) : UnitOK(LUnits[i])
+ShiftToks(ts, d) == [i \in 1..Len(ts) |-> [ts[i] EXCEPT !.p = @ + d]]
+ASSUME Periodic ==
+    \A i \in 1..Len(LUnits) : \A w \in 1..Len(LWindows) :
+        LET u == LUnits[i]  ut == LexAll(u)  all == LexAll(u \o u \o LWindows[w]) IN
+        /\ Len(all) >= 2 * Len(ut)
+        /\ SubSeq(all, 1, 2 * Len(ut)) = ut \o ShiftToks(ut, Len(u))
+
+PrefToks(idx) == LongC(idx) * Len(LexAll(LongU(idx)))
+ExpPrefixTok(t, u, jj) ==
+    LET ut == LexAll(u)
+        q  == (jj - 1) \div Len(ut)
+        tk == ut[((jj - 1) % Len(ut)) + 1]
+    IN MkTok(t, tk.k, q * Len(u) + tk.p, tk.n)
+
+---------------------------------------------------------------------------
+IsLong == Universe = "long"
+
+UniverseSize ==
+    CASE Universe = "ustrings" -> NumStringsOver(Len(UAlphabet), 4)
+      [] Universe = "numgram"  -> NumStringsOver(Len(NumAlphabet), NumMaxLen)
+      [] Universe = "numctx"   -> NumStringsOver(Len(NumAlphabet), NumCtxMaxLen) * Len(NumPre) * Len(NumPost)
+      [] Universe = "uctx"     -> UCtxSize
+      [] Universe = "files"    -> FilesSize
+      [] Universe = "long"     -> LongSize
+      [] OTHER                 -> 0
+ExhCount ==
+    CASE Universe = "ustrings" -> NumStringsOver(Len(UAlphabet), ExhLen)
+      [] Universe = "numgram"  -> NumStringsOver(Len(NumAlphabet), ExhLen)
+      [] Universe = "numctx"   -> NumStringsOver(Len(NumAlphabet), ExhLen) * Len(NumPre) * Len(NumPost)
+      [] Universe \in {"uctx", "files"} -> IF ExhLen > 0 THEN UniverseSize ELSE 0
+      [] OTHER                 -> 0
+Indexed == Universe \in {"ustrings", "numgram", "numctx", "uctx", "files", "long"}
+
+\* the recorder announces how many exhaustive records it wrote; it has to be what the specification asks for
+ASSUME ExhAgreed == EnvInt("EXPECT_EXH", ExhCount) = ExhCount
+
+CaseText(kk) == CASE Universe = "strings"  -> StringAt(Offset + kk)
+                  [] Universe = "frags"    -> FragAt(Rec[kk].idx)
+                  [] Universe = "ustrings" -> StringAtOver(UAlphabet, Rec[kk].idx)
+                  [] Universe = "numgram"  -> StringAtOver(NumAlphabet, Rec[kk].idx)
+                  [] Universe = "numctx"   -> NumCtxAt(Rec[kk].idx)
+                  [] Universe = "uctx"     -> UCtxAt(Rec[kk].idx)
+                  [] Universe = "files"    -> FileAt(Rec[kk].idx)
+                  [] Universe = "long"     -> LongAt(Rec[kk].idx)
+                  [] OTHER                 -> Rec[kk].input
+
+IndexOK(kk) == Indexed => /\ Rec[kk].idx \in 1..UniverseSize
+                          /\ (Offset + kk <= ExhCount) => Rec[kk].idx = Offset + kk
+
+Origin == IF IsLong THEN LongC(Rec[k].idx) * Len(LongU(Rec[k].idx)) + 1 ELSE 1
 
 ---------------------------------------------------------------------------
 NT == Len(Rec[k].toks)
@@ -89,7 +258,39 @@ TraceInit ==
     /\ k \in 1..N
     /\ text = CaseText(k)
     /\ Assert(Rec[k].input = text, <<"universe mismatch at record", k, Rec[k].input, text>>)
-    /\ pos = 1 /\ toks = <<>> /\ j = 1 /\ st = "run"
+    /\ Assert(IndexOK(k), <<"record index outside the universe or exhaustive part incomplete", k>>)
+    /\ toks = <<>>
+    /\ IF IsLong
+         THEN /\ pos = LongC(Rec[k].idx) * Len(LongU(Rec[k].idx)) + 1
+              /\ j = PrefToks(Rec[k].idx) - Rec[k].first + 2
+              /\ st = "prefix"
+         ELSE pos = 1 /\ j = 1 /\ st = "run"
+
+(* long texts: the periodic prefix *)
+PrefixCountOK == LET r == Rec[k]  P == PrefToks(r.idx) IN r.first <= P + 1 /\ P <= r.ntoks
+PrefixBad ==   \* the recorded prefix tokens (sampled ones and those at the head of the recorded tail) that are not the expected ones
+    LET r == Rec[k]  P == PrefToks(r.idx)  u == LongU(r.idx) IN
+    {r.samples[s].j : s \in {s \in 1..Len(r.samples) :
+                                /\ r.samples[s].j <= P
+                                /\ ~TokEq(ExpPrefixTok(text, u, r.samples[s].j), r.samples[s].t)}}
+    \cup {r.first + i - 1 : i \in {i \in 1..Len(r.toks) :
+                                /\ r.first + i - 1 <= P
+                                /\ ~TokEq(ExpPrefixTok(text, u, r.first + i - 1), r.toks[i])}}
+
+TracePrefix ==
+    /\ st = "prefix"
+    /\ IF ~PrefixCountOK
+         THEN /\ st' = "fail"
+              /\ PrintT(<<"REJECT", ToJson([rec |-> k, tok |-> 0, pos |-> 0, why |-> "prefix-token-count",
+                                            expected |-> {}, at |-> "none", numlike |-> FALSE,
+                                            bad |-> {PrefToks(Rec[k].idx)}])>>)
+         ELSE LET bad == PrefixBad IN
+              IF bad # {}
+                THEN /\ st' = "fail"
+                     /\ PrintT(<<"REJECT", ToJson([rec |-> k, tok |-> 0, pos |-> 0, why |-> "prefix-token",
+                                                   expected |-> {}, at |-> "none", numlike |-> FALSE, bad |-> bad])>>)
+                ELSE st' = "run"
+    /\ UNCHANGED <<text, pos, toks, k, j>>
 
 TraceSkip == /\ st = "run" /\ SkipBlank /\ UNCHANGED <<k, j, st>>
 
@@ -111,6 +312,19 @@ Why == IF pos > Len(text) THEN "extra-token"
        ELSE IF j > NT THEN "missing-token"
        ELSE "token-mismatch"
 
+(* case description for the signature: the class of the character at which the next token has to start,
+   and whether the recorded token is "a number with non-ASCII decimal digits": its (single-line) span
+   contains a UniDigit and would be an int or a float if every UniDigit in it were an ASCII digit *)
+RECURSIVE AsciiDigits(_)
+AsciiDigits(s) == IF s = "" THEN ""
+                  ELSE (IF Ch(s, 1) \in UniDigit THEN "1" ELSE Ch(s, 1)) \o AsciiDigits(SubSeq(s, 2, Len(s)))
+NumLike ==
+    /\ pos <= Len(text) /\ j <= NT
+    /\ LET r == Rec[k].toks[j]  n == r.ce - r.cs IN
+       /\ r.lend = r.line /\ n >= 1 /\ pos + n - 1 <= Len(text)
+       /\ \E q \in pos..(pos + n - 1) : Ch(text, q) \in UniDigit
+       /\ LET s == AsciiDigits(Sub(text, pos, n)) IN IsInt(s, 1, n) \/ IsFloat(s, 1, n)
+
 TraceReject ==
     /\ st = "run" /\ ~AtBlank
     /\ ~(pos > Len(text) /\ j > NT)
@@ -118,16 +332,19 @@ TraceReject ==
     /\ st' = "fail"
     /\ PrintT(<<"REJECT", ToJson([rec |-> k, tok |-> j, pos |-> pos, why |-> Why,
                                   expected |-> IF pos <= Len(text) /\ MatchLens(text, pos) # {}
-                                               THEN Expected(text, pos) ELSE {}])>>)
+                                               THEN Expected(text, pos) ELSE {},
+                                  at |-> IF pos <= Len(text) THEN ClassName(Ch(text, pos)) ELSE "end",
+                                  numlike |-> NumLike, bad |-> {}])>>)
     /\ UNCHANGED <<text, pos, toks, k, j>>
 
-TraceNext == TraceSkip \/ TraceEmit \/ TraceAccept \/ TraceReject
+TraceNext == TracePrefix \/ TraceSkip \/ TraceEmit \/ TraceAccept \/ TraceReject
 
 TraceSpec == TraceInit /\ [][TraceNext]_tvars
 
 \* every spec invariant is evaluated in every state of every validated trace
-TraceInv == Tiling /\ Maximal /\ PositionsSane /\ PosInRange
+TraceInv == /\ TilingFrom(Origin) /\ Maximal /\ PositionsSane /\ PosInRange
+            /\ ~IsLong => NonTokenConfined
 
 \* the trace machine never gets stuck silently: a running state always has a successor
-TraceTotal == st = "run" => ENABLED TraceNext
+TraceTotal == st \in {"run", "prefix"} => ENABLED TraceNext
 =============================================================================
